@@ -220,6 +220,8 @@ func renderAct(r *rand.Rand, name, arg string, last bool) (string, bool) {
 // that writes (at least) the same fields of Options — its twin, its aliases, wider options — in the
 // same vector and split between environment and command line; and every option followed by an
 // empty word, a lone dash and a non-numeric word where its value (or optional number) would be.
+var optLiterals []string
+
 func emitOverrideSweep(emit func(op string, args ...string)) {
 	optionVocabulary()
 	enc := func(ws []string) string {
@@ -248,6 +250,26 @@ func emitOverrideSweep(emit func(op string, args ...string)) {
 		}
 		for _, junk := range []string{"", "-", "x"} {
 			emit("override", "_", "_", enc(f1), enc([]string{n, junk}))
+		}
+	}
+	// value-taking long options with every keyword of the option grammar as the whole value, and with
+	// pairs of keywords: accepted or rejected, never a crash
+	for _, n := range optNames {
+		takesValue := false
+		for _, f := range optForms[n] {
+			if len(f) == 2 {
+				takesValue = true
+			}
+		}
+		if !takesValue || !strings.HasPrefix(n, "--") {
+			continue
+		}
+		for k, lit := range optLiterals {
+			emit("override", "_", "_", "_", enc([]string{n + "=" + lit}))
+			if k%7 == 0 {
+				other := optLiterals[(k*13+5)%len(optLiterals)]
+				emit("override", "_", "_", "_", enc([]string{n + "=" + lit + "," + other}))
+			}
 		}
 	}
 }
@@ -468,6 +490,17 @@ func optionVocabulary() {
 	if err != nil {
 		panic(err)
 	}
+	// every short word that occurs as a string literal in options.go: the keywords the value parsers
+	// know (positions, shapes, styles, flags such as border-native) — candidates for option values
+	optLiterals = nil
+	seenLit := map[string]bool{}
+	for _, m := range regexp.MustCompile(`"([a-z][a-z0-9-]{1,19})"`).FindAllStringSubmatch(string(src), -1) {
+		if !seenLit[m[1]] {
+			seenLit[m[1]] = true
+			optLiterals = append(optLiterals, m[1])
+		}
+	}
+	sort.Strings(optLiterals)
 	names := map[string]bool{}
 	optFields = map[string]map[string]bool{}
 	cur := []string{}
